@@ -1090,34 +1090,52 @@ class TreeSim(taps.Sim):
             a = copy.deepcopy(root)
             b = copy.deepcopy(root)
             names = [n.full_name for n in root.members]
-            tgt = names[spec[0] % len(names)]
-            na = [n for n in a.members if n.full_name == tgt][0]
-            nb = [n for n in b.members if n.full_name == tgt][0]
-            props = PROPS_STRAT if hasattr(na, "capital") else PROPS_SEC
-            prop = props[spec[3] % len(props)]
-            try:
-                va = getattr(na, prop)
-                ea = None
-            except Exception as e:  # noqa
-                va, ea = None, type(e).__name__
+            # a short seeded sequence of reads: the first one meets the pending changes, the following ones must not be
+            # left with stale numbers by it (a read that clears the stale flag without refreshing everything)
+            import random as _random
+
+            rr = _random.Random(spec[0] * 1000003 + spec[1] * 1009 + spec[3])
+            seq = []
+            for _ in range(3):
+                tgt = names[rr.randrange(len(names))]
+                is_strat = hasattr([n for n in root.members if n.full_name == tgt][0], "capital")
+                props = PROPS_STRAT if is_strat else PROPS_SEC
+                seq.append((tgt, props[rr.randrange(len(props))]))
+
+            def read(tree, tgt, prop):
+                node = [n for n in tree.members if n.full_name == tgt][0]
+                try:
+                    return getattr(node, prop), None
+                except Exception as e:  # noqa
+                    return None, type(e).__name__
+
             try:
                 b.update(b.now)
-                vb = getattr(nb, prop)
-                eb = None
+                eb0 = None
             except Exception as e:  # noqa
-                vb, eb = None, type(e).__name__
-            if eb is not None:
+                eb0 = type(e).__name__
+            if eb0 is not None:
                 # the pending state is one in which the update itself fails (zero base, ...): nothing to compare
                 self.incon("freshness_update_raises")
-            elif ea is not None:
-                self.violation("freshness", "%s.%s direct read raised %s although an explicit update succeeds" % (tgt, prop, ea))
-            elif ea is None:
+                return
+            for k, (tgt, prop) in enumerate(seq):
+                va, ea = read(a, tgt, prop)
+                vb, eb = read(b, tgt, prop)
+                if eb is not None:
+                    self.incon("freshness_update_raises")
+                    return
+                if ea is not None:
+                    self.violation("freshness", "%s.%s read with pending changes raised %s although an explicit update succeeds" % (tgt, prop, ea), {"prop": prop})
+                    return
                 if hasattr(va, "to_numpy"):
-                    same = va.shape == vb.shape and va.to_numpy(dtype=float, na_value=float("nan")).tobytes() == vb.to_numpy(dtype=float, na_value=float("nan")).tobytes() and list(va.index) == list(vb.index)
+                    xa = va.to_numpy(dtype=float, na_value=float("nan"))
+                    xb = vb.to_numpy(dtype=float, na_value=float("nan"))
+                    same = va.shape == vb.shape and list(va.index) == list(vb.index) and all((p == q) or (p != p and q != q) for p, q in zip(xa.ravel(), xb.ravel()))
                 else:
                     same = (va == vb) or (va != va and vb != vb)
                 if not same:
-                    self.violation("freshness", "%s.%s read with pending changes = %r, after explicit update = %r" % (tgt, prop, _short(va), _short(vb)), {"prop": prop})
+                    self.violation("freshness", "%s.%s read with pending changes (read #%d of %s) = %s, after an explicit update = %s" % (tgt, prop, k + 1, seq, _short(va), _short(vb)), {"prop": prop, "read_no": k + 1})
+                    return
         finally:
             taps.set_current(cur)
 
@@ -1174,6 +1192,14 @@ class TreeSim(taps.Sim):
                 cmp(p, "notional_value", self.series(node, "notional_values"), rows, "notional")
                 cmp(p, "fees", self.series(node, "fees"), rows, "fees")
                 cmp(p, "flows", self.series(node, "flows"), rows, "flows")
+                if self.feed.has("bidoffer") and mn is not None:
+                    # a strategy's recorded bid/offer paid = what every security below it paid on that date
+                    tot = {}
+                    for sn in m.nodes(mn):
+                        if sn.issec:
+                            for t2, r2 in sn.rows.items():
+                                tot[t2] = tot.get(t2, 0.0) + r2["bidoffer_paid"]
+                    cmp(p, "strategy_bidoffer_paid", self.series(node, "bidoffers_paid"), {t2: {"x": v2} for t2, v2 in tot.items()}, "x")
             else:
                 cmp(p, "value", self.series(node, "values"), rows, "value")
                 cmp(p, "position", self.series(node, "positions"), rows, "position")
